@@ -35,7 +35,15 @@ META = {
         "patches only 5TERM removes heavy atoms, exactly P,O1P,O2P. NOT proved (explored only): Carboxylic for arbitrary "
         "residues, that the repair loop's fuel always suffices, OP1/OP2 aliasing in repair, and the end-to-end statement, "
         "searched by an outer join on real runs over residue types x positions x protonation variants x options x six force "
-        "fields. Refuted in the model: a water arriving with H2 but no H1 never gets H1 (real run aborts loudly)."
+        "fields. Refuted in the model: a water arriving with H2 but no H1 never gets H1 (real run aborts loudly). "
+        "END TO END at name level (C03_pipeline_written_set): pipeline_names composes terminus patches -> repair_heavy -> "
+        "add_hydrogens -> the protocol of the residue's kind -> cleanup -> HIS.set_state -> partition by force-field entry; for "
+        "ALL inputs meeting the boolean guards, ALL label lists, never-failing placement oracles and ANY fully parameterising "
+        "entry predicate the written names are exactly the expected final-state names (no hydrogen missing, no duplicate, no "
+        "placeholder, nothing unassigned), logged deletions are exactly the names outside the reference and every input heavy "
+        "reference atom occurs once; --clean / --assign-only add nothing. Instantiated on the maps C01 builds for the six force "
+        "fields over 53 generated cases (33 fully parameterised each, 53 for PARSE). Partial there: Carboxylic protocol stage per "
+        "table instance only; state patches after repair (CYX, pKa) are modelled and tied but outside the theorem."
     ),
     "level_note": (
         "Trusted: Coq kernel+vm_compute; gen/c03_table.py (ast scan of apply_patch literals, instance observation through "
@@ -43,7 +51,10 @@ META = {
         "hydrogens/structures.py by trace inclusion on monitored real runs (per unit call: emitted create/remove/rename "
         "sequence equal, final names equal) incl. runs whose is_hbond answers are vetoed or coin-flipped and DRIVEN walks that "
         "take real protocol objects to every reachable ordered name state of the model; tied to Biomolecule.repair_heavy / "
-        "add_hydrogens per residue (ordered names after, logged extras, ValueError text) on every monitored run; the monitors "
+        "add_hydrogens per residue (ordered names after, logged extras, ValueError text) on every monitored run, and END TO END "
+        "per residue: pipeline_names on the residue's input names + the observed protocol labels vs final names, PQR names, "
+        "unassigned names and logged deletions of the real run (every amino/water residue of every monitored run, ~1850 per "
+        "quick run, ~400 distinct evaluated in Coq); the monitors "
         "(monkeypatches); oracle assumption: Carboxylic.finalize finds a hydrogen with energy < 999.99 whenever hlist is non-empty."
     ),
     "design_ref": "DESIGN.md 4 C03",
@@ -66,6 +77,18 @@ THEOREMS = [
     "C03_layer_keyerror",
     "C03_repair_add_complete",
     "C03_rebuild_templates_table",
+    "C03_pipeline_written_set",
+    "C03_pipeline_written_set_lookup",
+    "C03_pipeline_written_set_AMBER",
+    "C03_pipeline_written_set_CHARMM",
+    "C03_pipeline_written_set_PARSE",
+    "C03_pipeline_written_set_PEOEPB",
+    "C03_pipeline_written_set_SWANSON",
+    "C03_pipeline_written_set_TYL06",
+    "C03_pipeline_ff_nonvacuous",
+    "C03_pipeline_clean",
+    "C03_pipeline_assign_only",
+    "C03_pipeline_carboxylic_partial",
     "C03_partition_no_loss_no_dup",
     "C03_ligand_step_once",
     "C03_patch_removals_table",
@@ -631,6 +654,7 @@ def trace_term(rec):
     final = rec.final_names if rec.final_names is not None else [a.name for a in rec.residue.atoms]
     comp = None
     steps = []
+    labs = []
     kind = rec.kind
     for c in merged:
         if c.method == "complete":
@@ -661,6 +685,7 @@ def trace_term(rec):
             else:
                 lab = "CFinalize " + (f"(Some {S(kept[0])})" if (len(kept) == 1 and not c.fixed_before) else "None")
         steps.append(f"({lab}, {ops_term(c.ops)})")
+        labs.append(lab)
     if kind == "Flip":
         mv = kterm[len("KFlip "):]
         head = f"accept_all _ _ (flip_step {mv}) flip_complete (flip_start {L(map(S, base))} {mv})"
@@ -698,7 +723,114 @@ def trace_term(rec):
         else:
             fin = f"(Some (None, {ops_term(rec.cleanup_ops)}))"
     term = f"{head} {ops_term(init.ops)} {L(steps)} {fin} {L(map(S, final))}"
+    # the same walk as protocol kind + label list of the pipeline model
+    if kind == "Flip":
+        rec.pk = (f"(PFlip {kterm[len('KFlip '):]})", f"(LFlip {L(labs)})")
+    elif kind == "Alcoholic":
+        rec.pk = (f"(PAlc {kterm[len('KAlc '):]})", f"(LAlc {L(labs)})")
+    elif kind == "Water":
+        rec.pk = ("PWat", f"(LWat {L(labs)})")
+    else:
+        if comp:
+            removed = [o[1] for o in comp.ops if o[0] == "remove"]
+            kept = [h for h in comp.hl_before if h not in removed]
+            bestc = f"(Some {S(kept[0])})" if (len(kept) == 1 and not comp.fixed_before) else "None"
+        else:
+            bestc = "None"
+        rec.pk = (f"(PCarb {kterm[len('KCarb '):]} {ordf} {lf})", f"(LCarb {L(labs)} {bestc})")
     return term, None
+
+
+TERMINAL_PATCHES = ("PEPTIDE", "NTERM", "CTERM", "NEUTRAL-NTERM", "NEUTRAL-CTERM", "5TERM", "3TERM")
+_FF_CACHE = {}
+
+
+def _forcefield(ff):
+    if ff not in _FF_CACHE:
+        from harness import builder as B
+        from pdb2pqr import forcefield
+
+        _FF_CACHE[ff] = forcefield.Forcefield(ff.lower(), B.definitions(), None, None)
+    return _FF_CACHE[ff]
+
+
+def e2e_terms(atoms, r, opts, ff):
+    """Per residue: the pipeline model on the residue's INPUT names with the oracle answers
+    observed in the run vs what the real run ended with (final names, names written in the
+    PQR, names reported unassigned, deletions logged)."""
+    from harness import builder as B
+    from pdb2pqr import aa
+
+    if r["exc"] is not None or r["result"] is None:
+        return []
+    missed, _pka, bio = r["result"]
+    clean, assign_only = "--clean" in opts, "--assign-only" in opts
+    mode = "MClean" if clean else ("MAssignOnly" if assign_only else f"(MFull {'false' if '--noopt' in opts else 'true'})")
+    defs = B.definitions()
+    inp = {}
+    for a in atoms:
+        inp.setdefault((a.chain, str(a.resseq) + a.icode), []).append(a.name)
+    written = {}
+    for p in B.parse_pqr(r["pqr_text"] or ""):
+        written.setdefault((p["chain"], p["resseq"]), []).append(p["name"])
+    missed_ids = {id(a) for a in (missed or [])}
+    recs = {id(rec.residue): rec for rec in r["mon"].order}
+    rmon = r.get("rmon")
+    rep = {x["key"]: x for x in (rmon.repair if rmon else [])}
+    anym = bool(rmon.repair and rmon.repair[0].get("any_missing")) if rmon else False
+    ffobj = None if clean else _forcefield(ff)
+    out = []
+    for res in bio.residues:
+        if not isinstance(res, (aa.Amino, aa.WAT)):
+            continue
+        key = (res.chain_id, str(res.res_seq) + res.ins_code)
+        if key not in inp:
+            continue
+        ns = inp[key]
+        if len(set(ns)) != len(ns):
+            continue
+        final = [a.name for a in res.atoms]
+        patches = list(getattr(res, "patches", []))
+        ps1, ps2 = [], []
+        for pn in patches:
+            pt = defs.patches[pn]
+            fx = f"mkPF {L(map(S, pt.remove))} {L('(' + S(o) + ', ' + S(n) + ')' for o, n in pt.altnames.items())}"
+            (ps1 if pn in TERMINAL_PATCHES else ps2).append(fx)
+        ref = list(res.reference.map.keys())
+        ssb = bool(isinstance(res, aa.CYS) and getattr(res, "ss_bonded", False))
+        rec = recs.get(id(res))
+        pk = getattr(rec, "pk", None) if rec is not None else None
+        if rec is not None and pk is None:
+            continue  # trace not expressible: already reported by the trace stage
+        kterm, lterm = pk if pk else ("PNone", "LNone")
+        cl = "None"
+        for nm, c in (("ASH", 'mkcarb "HD1" "OD1" "HD2" "OD2"'), ("GLH", 'mkcarb "HE1" "OE1" "HE2" "OE2"')):
+            if res.name == nm or nm in patches:
+                cl = f"(Some ({c}))"
+        his = "None"
+        if isinstance(res, aa.HIS) and "HIP" not in patches and res.name not in ("HIP", "HSP"):
+            his = "(Some false)" if ("HE2" in final and "HD1" not in final) else "(Some true)"
+        if clean:
+            ent = "(fun _ => true)"
+            exp_w, exp_u = list(final), []
+        else:
+            ffname = res.ffname
+            has = [n for n in dict.fromkeys(final + ns + ref) if ffobj.get_params(ffname, n) != (None, None)]
+            ent = f"(fun x => mem x {L(map(S, has))})"
+            exp_w = written.get(key, [])
+            exp_u = [a.name for a in res.atoms if id(a) in missed_ids]
+        lg = rep.get(str(res), {}).get("logged", []) if not (clean or assign_only) else []
+        rr = rep.get(str(res))
+        feas = "(fun _ _ => true)"
+        if rr is not None and not (clean or assign_only):
+            miss = [x for x in rr["ref"] if not x.startswith("H") and x not in ("N+1", "C-1") and x not in rr["before"]]
+            near = L(f"({S(a)}, {L(map(S, rr['near'].get(a, [])))})" for a in miss)
+            feas = f"(feas_tab {near} {'true' if rr['pn'] else 'false'} {'true' if rr['pc'] else 'false'})"
+        term = (f"show_pres (pipeline_names {L(map(S, ref))} {feas} (fun _ _ => true) {ent} {mode} {L(ps1)} {L(ps2)} "
+                f"{'true' if anym else 'false'} {'true' if ssb else 'false'} {kterm} {lterm} {cl} {his} {L(map(S, ns))})")
+        exp = f"OK final={' '.join(final)} | written={' '.join(exp_w)} | unassigned={' '.join(exp_u)} | logged={' '.join(lg)}"
+        out.append((term, exp, {"what": "pipeline_names", "residue": str(res), "input": ns, "patches": patches, "final": final, "written": exp_w}))
+    return out
 
 
 
@@ -1222,6 +1354,7 @@ def run(ctx):
                     rseen.add(term)
                     case.update(structure=tag, args=r["args"], pdb=r["pdb_text"])
                     rterms.append((term, exp, case))
+        e2e_pending.append((atoms, r, opts, ff, tag))
         if finished or r["mon"].done:
             for rec in r["mon"].order:
                 ctx.count("protocol-object:" + rec.kind)
@@ -1249,11 +1382,13 @@ def run(ctx):
                     pass
     terms, owners = [], []
     rterms, rseen = [], set()
+    e2e_pending = []
+    t_search = ctx.elapsed()  # the proof stage may have waited for the shared build lock
     budget = 150 if not ctx.thorough else 1500
     import random
 
     for tag, atoms, meta, opts, ff, veto in plan:
-        if ctx.elapsed() > budget:
+        if ctx.elapsed() - t_search > budget:
             ctx.count("skipped-for-time")
             continue
         vr = random.Random(f"veto:{ctx.seed}:{veto}") if veto is not None else None
@@ -1286,6 +1421,36 @@ def run(ctx):
     except core.CoqEvalError as e:
         corr_broken = True
         ctx.broke("correspondence-broken", "trace acceptor evaluation failed", str(e)[:1500])
+    # end to end per residue: pipeline model vs final names / PQR names / unassigned / logged
+    eterms, eseen, etotal = [], set(), 0
+    for atoms_, r_, opts_, ff_, tag_ in e2e_pending:
+        if r_.get("walk"):
+            continue  # driven walks are compared by the acceptor; their label lists are scripted
+        try:
+            lst = e2e_terms(atoms_, r_, opts_, ff_)
+        except Exception as e:  # noqa: BLE001
+            ctx.broke("harness-error", f"e2e term construction: {type(e).__name__}: {e}", "")
+            continue
+        for term, exp, case in lst:
+            etotal += 1
+            if term + exp not in eseen and len(eterms) < (6000 if ctx.thorough else 1200):
+                eseen.add(term + exp)
+                case.update(structure=tag_, args=r_["args"], pdb=r_["pdb_text"])
+                eterms.append((term, exp, case))
+    ctx.cov["distribution"]["e2e-residues-total"] = etotal
+    ctx.cov["distribution"]["e2e-residues-distinct-evaluated"] = len(eterms)
+    try:
+        eouts = core.run_cases("C03e2e", HEADER, [x[0] for x in eterms], chunk=50)
+        for (term, exp, case), o in zip(eterms, eouts):
+            ctx.cov["correspondence_cases"] += 1
+            if o.strip() != exp.strip():
+                ctx.cov["correspondence_disagreements"] += 1
+                corr_broken = True
+                if len([b for b in ctx.broken if "pipeline_names" in b["what"]]) < 4:
+                    ctx.broke("correspondence-broken", "Model.NameProtocol.pipeline_names vs the real run (one residue: final / written / unassigned / logged)", f"model={o!r}\nreal ={exp!r}", case)
+    except core.CoqEvalError as e:
+        corr_broken = True
+        ctx.broke("correspondence-broken", "pipeline model evaluation failed", str(e)[:1500])
     # repair_heavy / add_hydrogens per residue vs the model
     try:
         routs = core.run_cases("C03rep", HEADER, [x[0] for x in rterms], chunk=60)
